@@ -142,13 +142,19 @@ def execute(c):
             ev["crs_ok"] = out.crs == g.crs
         elif op == "to_crs_same_spelling":
             other = CRS(pyproj.CRS.from_user_input(CRS_A).to_wkt())
-            out = g.to_crs(other)
+            rkw = {} if c["r"] == 0 else {"resolution": "auto" if c["r"] == -1 else float(c["r"])}
+            out = g.to_crs(other, **rkw)
             ev["same_object"] = out is g
         elif op == "to_crs_no_crs":
-            out = g.to_crs(CRS_B)
+            out = g.to_crs(CRS_B, **({} if c["r"] <= 0 else {"resolution": float(c["r"])}))
         else:
             res = float(c["r"]) if c["r"] else None
-            out = g.to_crs(CRS_B, resolution=res)
+            tgt = CRS_B
+            if (len(c["geo"]) + c["r"] + len(c["off"])) % 2 == 0:
+                # history: both CRS objects have had their EPSG code looked up (neither has one) before the conversion
+                tgt = CRS(CRS_B)
+                _ = (tgt.epsg, g.crs.epsg)
+            out = g.to_crs(tgt, resolution=res)
             ev["t"] = [T_FAMILY[0] * S, T_FAMILY[1] * S]
             ev["crs_ok"] = bool(out.crs == CRS(CRS_B))
         ev["sig_out"], ev["out"] = _flatten(out.geom, enc)
